@@ -264,6 +264,19 @@ theorem safeDiv_applyMask_comm (X : Ext K) (m : Meta) (sf mk k : Val K) :
     simp only [fo_isZero, fo_zero, fo_div, decide_eq_true_eq]
     split <;> split <;> simp
 
+/-- identity externals (what the exact correspondence runs use for the FFT-based operators) -/
+def idExt : Ext K where
+  lin := fun _ _ v => v
+  mask := fun _ _ _ _ _ len => List.replicate (len / 2) true
+  split := fun input _ _ ms => (ms.headD []).map fun b => b && input
+  eps := 0
+  kOf := fun _ => 1
+  padCoilsTo := 0
+  espirit := fun v => v
+
+theorem idExt_hom : ExtHom (idExt (K := K)) := ⟨fun _ _ _ _ _ => rfl⟩
+theorem zeroSqrt_hom : SqrtHom (K := K) (fun _ => 0) := fun _ _ _ => by simp
+
 /-! ## stores -/
 
 /-- the store obtained from `s` by scaling the tensor under key `k` by `c ^ (e k)` -/
